@@ -119,3 +119,22 @@ Definition view_bounds (t : ity) (s : sel) (n : Z) : option (Z * Z) :=
   | RngI a b => range_bounds (Inc (index_i64 a)) (Inc (index_i64 b)) n
   | ToI b => range_bounds Unb (Inc (index_i64 b)) n
   end.
+
+(* ---------- what a selector means, element by element ---------- *)
+(* Python: `seq[i]` with negative i is `seq[i + len]`; a slice `seq[a:b]` holds exactly the elements
+   whose index k satisfies norm a <= k < norm b (bounds outside the sequence simply select nothing
+   more); `a..=b` is `seq[a:b+1]` read on element indices: norm a <= k <= norm b.  This reading does
+   not clamp anything: it is the membership predicate py_slice is checked against (BoundsProofs). *)
+Definition norm (n i : Z) : Z := if i <? 0 then i + n else i.
+
+Definition selects (n : Z) (s : sel) (k : Z) : Prop :=
+  0 <= k < n /\
+  match s with
+  | Full => True
+  | Idx i => k = norm n i
+  | Rng a b => norm n a <= k < norm n b
+  | From a => norm n a <= k
+  | To b => k < norm n b
+  | RngI a b => norm n a <= k <= norm n b
+  | ToI b => k <= norm n b
+  end.
